@@ -127,6 +127,7 @@ pub fn run(_tier: &str, rep: &mut Report) {
 #[allow(clippy::too_many_arguments)]
 fn check(rep: &mut Report, kind: &str, src: &[u8], pos: usize, n: usize, want_ok: bool, got_ok: bool, start: usize, end: usize, is_boundary: impl Fn(usize) -> bool, slices_ok: impl FnOnce() -> bool) {
     rep.count("evaluations", 1);
+    crate::tick(|| format!("{kind} source {:?}, position {pos}, bump({n})", String::from_utf8_lossy(src)));
     let near = pos.checked_add(n).map_or(true, |e| (e as i128 - src.len() as i128).abs() <= 1);
     if !want_ok || near {
         rep.count("distinct_nontrivial", 1);
